@@ -9,7 +9,10 @@ import Uhppote.Props.C02
 `Listen`, as a function of the datagram sequence. Partial: re-binding the listen socket after
 shutdown is kernel behaviour; the relative order of an error callback (made by the receive
 loop) and an event callback (made by the dispatch goroutine) is not defined by the code and is not
-claimed — events are ordered among themselves. -/
+claimed — events are ordered among themselves. Likewise `connected` is called by `uhppote.listen`
+after `driver.Listen` has started the receive loop, so a datagram that is already waiting can be
+delivered before it: the model puts `connected` first, of the code only "exactly once" is claimed
+(which is all the property states: "fires once after the socket is bound"). -/
 set_option linter.unusedSimpArgs false
 namespace Uhppote.Props.C10
 open Uhppote Uhppote.Model Uhppote.Model.Api Uhppote.Model.Events
